@@ -676,7 +676,7 @@ Proof.
     + exists (set_wf_state s CANCELLED). split; [|apply Hy; reflexivity].
       unfold cancel_workflow. rewrite Ew. apply Hx. reflexivity.
     + destruct (all_errors_handled s).
-      * exists (set_wf_state s SUCCESS). split; [|apply Hy; reflexivity]. unfold succeed_workflow. apply Hx. reflexivity.
+      * exists (set_wf_state s SUCCESS). split; [|apply Hy; reflexivity]. unfold succeed_workflow. rewrite Ew. apply Hx. reflexivity.
       * exists (set_wf_state s ERROR). split; [|apply Hy; reflexivity]. unfold fail_workflow. rewrite Ew. apply Hx. reflexivity.
 Qed.
 
@@ -1378,7 +1378,8 @@ Lemma stop_W s x s1 : Wk None s [] -> stop_workflow s x = Some s1 -> Wk None s1 
 Proof.
   intros Hw. unfold stop_workflow, succeed_workflow, fail_workflow, cancel_workflow.
   destruct x; try (intros H; injection H as <-; exact Hw).
-  - intros H. apply wf_set_state_inv in H. subst s1. apply hdr_quiet_W; [exact Hw|reflexivity|discriminate].
+  - destruct (state_eqb (wf_state s) SUCCESS); [intros H; injection H as <-; exact Hw|].
+    intros H. apply wf_set_state_inv in H. subst s1. apply hdr_quiet_W; [exact Hw|reflexivity|discriminate].
   - destruct (is_completed (wf_state s)); [intros H; injection H as <-; exact Hw|].
     intros H. apply wf_set_state_inv in H. subst s1. apply hdr_quiet_W; [exact Hw|reflexivity|discriminate].
   - destruct (is_completed (wf_state s)); [intros H; injection H as <-; exact Hw|].
